@@ -24,7 +24,8 @@ import sys
 
 FILES = ["minidump-processor/src/processor.rs", "minidump-processor/src/process_state.rs", "minidump-processor/src/evil.rs",
          "minidump-processor/src/arg_recovery.rs", "minidump-processor/src/op_analysis.rs", "minidump-processor/src/lib.rs",
-         "minidump-unwind/src/lib.rs"]
+         "minidump-unwind/src/lib.rs", "minidump-unwind/src/symbols/mod.rs", "breakpad-symbols/src/lib.rs",
+         "breakpad-symbols/src/sym_file/walker.rs"]
 ITER_METHODS = ["iter", "iter_mut", "into_iter", "keys", "values", "values_mut", "drain", "into_keys", "into_values", "retain",
                 "par_iter", "into_par_iter"]
 COMBINATORS = ["join_all", "try_join_all", "join!", "try_join!", "join", "try_join", "buffer_unordered", "buffered", "FuturesUnordered",
@@ -451,6 +452,10 @@ def lsb_aliases(repo):
     return arms
 
 
+def label_of(f):
+    return f.replace("minidump-", "").replace("/src/", "/")
+
+
 def coq_str(s):
     return '"%s"' % s.replace('"', '""')
 
@@ -460,19 +465,20 @@ def main():
         print(__doc__, file=sys.stderr)
         sys.exit(2)
     repo, outdir = sys.argv[1], sys.argv[2]
-    scans = []
-    fields, hash_fns = set(), set()
+    # struct fields / fns with a hash type are collected per crate (a field name means nothing in another crate)
+    fields, hash_fns = {}, {}
     for f in FILES:
         p = os.path.join(repo, f)
         if not os.path.exists(p):
             die("%s not found" % f)
-        sc = Scan(p, f.replace("minidump-", "").replace("/src/", "/"))
-        fields |= sc.fields
-        hash_fns |= sc.hash_fns
-    hash_fns |= {"stats"}          # SymbolProvider::stats() -> HashMap<String, SymbolStats> (minidump-unwind/src/symbols/mod.rs)
+        crate = f.split("/")[0]
+        sc = Scan(p, label_of(f))
+        fields.setdefault(crate, set()).update(sc.fields)
+        hash_fns.setdefault(crate, {"stats"}).update(sc.hash_fns)   # SymbolProvider::stats() -> HashMap<String, SymbolStats>
     sites, conc = [], []
     for f in FILES:
-        a, b = scan_file(os.path.join(repo, f), f.replace("minidump-", "").replace("/src/", "/"), fields, hash_fns)
+        crate = f.split("/")[0]
+        a, b = scan_file(os.path.join(repo, f), label_of(f), fields[crate], hash_fns[crate])
         sites += a
         conc += b
     if not sites:
@@ -480,7 +486,7 @@ def main():
     if not conc:
         die("no future combinator found (the extraction is broken: into_process_state joins the per-thread walks)")
     arms = lsb_aliases(repo)
-    o = ["(* GENERATED by translate/c13_sites.py from minidump-processor/src/*.rs and minidump-unwind/src/lib.rs — do not edit. *)",
+    o = ["(* GENERATED by translate/c13_sites.py from minidump-processor, minidump-unwind and breakpad-symbols sources — do not edit. *)",
          "From Coq Require Import List String ZArith.", "Import ListNotations.", "Open Scope string_scope.", "",
          "(* every iteration over a HashMap / HashSet in the non-test code: (file, enclosing fn, text without whitespace) *)",
          "Definition hash_iteration_sites : list (string * string * string) := ["]
